@@ -1,0 +1,243 @@
+//go:build verif
+
+package kafka
+
+// Add-only export file for the verification harness in /verif (property C04,
+// the hand-written request codec of Conn).  Nothing here is compiled into
+// normal builds.  Every function only forwards its arguments to the unexported
+// method / writer named in its comment.
+
+import (
+	"io"
+	"time"
+)
+
+// VerifC04NameBytes mirrors joinGroupRequestGroupProtocolV1 and
+// syncGroupRequestGroupAssignmentV0 (a string and a byte slice).
+type VerifC04NameBytes struct {
+	Name string
+	Data []byte
+}
+
+type VerifC04CommitPartition struct {
+	Partition int32
+	Offset    int64
+	Metadata  string
+}
+
+type VerifC04CommitTopic struct {
+	Topic      string
+	Partitions []VerifC04CommitPartition
+}
+
+type VerifC04FetchTopic struct {
+	Topic      string
+	Partitions []int32
+}
+
+type VerifC04Assignment struct {
+	Partition int32
+	Replicas  []int32
+}
+
+type VerifC04Config struct {
+	Name, Value string
+}
+
+type VerifC04CreateTopic struct {
+	Topic              string
+	NumPartitions      int32
+	ReplicationFactor  int16
+	ReplicaAssignments []VerifC04Assignment
+	ConfigEntries      []VerifC04Config
+}
+
+// (*Conn).findCoordinator
+func VerifC04FindCoordinator(c *Conn, key string) error {
+	_, err := c.findCoordinator(findCoordinatorRequestV0{CoordinatorKey: key})
+	return err
+}
+
+// (*Conn).joinGroup
+func VerifC04JoinGroup(c *Conn, group string, sessionTimeout, rebalanceTimeout int32, member, protocolType string, protocols []VerifC04NameBytes) error {
+	req := joinGroupRequest{
+		GroupID:          group,
+		SessionTimeout:   sessionTimeout,
+		RebalanceTimeout: rebalanceTimeout,
+		MemberID:         member,
+		ProtocolType:     protocolType,
+	}
+	if protocols != nil {
+		req.GroupProtocols = make([]joinGroupRequestGroupProtocolV1, len(protocols))
+		for i, p := range protocols {
+			req.GroupProtocols[i] = joinGroupRequestGroupProtocolV1{ProtocolName: p.Name, ProtocolMetadata: p.Data}
+		}
+	}
+	_, err := c.joinGroup(req)
+	return err
+}
+
+// (*Conn).syncGroup
+func VerifC04SyncGroup(c *Conn, group string, generation int32, member string, assignments []VerifC04NameBytes) error {
+	req := syncGroupRequestV0{GroupID: group, GenerationID: generation, MemberID: member}
+	if assignments != nil {
+		req.GroupAssignments = make([]syncGroupRequestGroupAssignmentV0, len(assignments))
+		for i, a := range assignments {
+			req.GroupAssignments[i] = syncGroupRequestGroupAssignmentV0{MemberID: a.Name, MemberAssignments: a.Data}
+		}
+	}
+	_, err := c.syncGroup(req)
+	return err
+}
+
+// (*Conn).heartbeat
+func VerifC04Heartbeat(c *Conn, group string, generation int32, member string) error {
+	_, err := c.heartbeat(heartbeatRequestV0{GroupID: group, GenerationID: generation, MemberID: member})
+	return err
+}
+
+// (*Conn).leaveGroup
+func VerifC04LeaveGroup(c *Conn, group, member string) error {
+	_, err := c.leaveGroup(leaveGroupRequestV0{GroupID: group, MemberID: member})
+	return err
+}
+
+// (*Conn).offsetCommit
+func VerifC04OffsetCommit(c *Conn, group string, generation int32, member string, retention int64, topics []VerifC04CommitTopic) error {
+	req := offsetCommitRequestV2{GroupID: group, GenerationID: generation, MemberID: member, RetentionTime: retention}
+	if topics != nil {
+		req.Topics = make([]offsetCommitRequestV2Topic, len(topics))
+		for i, t := range topics {
+			req.Topics[i].Topic = t.Topic
+			if t.Partitions != nil {
+				req.Topics[i].Partitions = make([]offsetCommitRequestV2Partition, len(t.Partitions))
+				for j, p := range t.Partitions {
+					req.Topics[i].Partitions[j] = offsetCommitRequestV2Partition{Partition: p.Partition, Offset: p.Offset, Metadata: p.Metadata}
+				}
+			}
+		}
+	}
+	_, err := c.offsetCommit(req)
+	return err
+}
+
+// (*Conn).offsetFetch
+func VerifC04OffsetFetch(c *Conn, group string, topics []VerifC04FetchTopic) error {
+	req := offsetFetchRequestV1{GroupID: group}
+	if topics != nil {
+		req.Topics = make([]offsetFetchRequestV1Topic, len(topics))
+		for i, t := range topics {
+			req.Topics[i] = offsetFetchRequestV1Topic{Topic: t.Topic, Partitions: t.Partitions}
+		}
+	}
+	_, err := c.offsetFetch(req)
+	return err
+}
+
+// (*Conn).listGroups
+func VerifC04ListGroups(c *Conn) error {
+	_, err := c.listGroups(listGroupsRequestV1{})
+	return err
+}
+
+// (*Conn).createTopics
+func VerifC04CreateTopics(c *Conn, topics []VerifC04CreateTopic, timeout int32, validateOnly bool) error {
+	req := createTopicsRequest{Timeout: timeout, ValidateOnly: validateOnly}
+	if topics != nil {
+		req.Topics = make([]createTopicsRequestV0Topic, len(topics))
+		for i, t := range topics {
+			rt := createTopicsRequestV0Topic{Topic: t.Topic, NumPartitions: t.NumPartitions, ReplicationFactor: t.ReplicationFactor}
+			if t.ReplicaAssignments != nil {
+				rt.ReplicaAssignments = make([]createTopicsRequestV0ReplicaAssignment, len(t.ReplicaAssignments))
+				for j, a := range t.ReplicaAssignments {
+					rt.ReplicaAssignments[j] = createTopicsRequestV0ReplicaAssignment{Partition: a.Partition, Replicas: a.Replicas}
+				}
+			}
+			if t.ConfigEntries != nil {
+				rt.ConfigEntries = make([]createTopicsRequestV0ConfigEntry, len(t.ConfigEntries))
+				for j, e := range t.ConfigEntries {
+					rt.ConfigEntries[j] = createTopicsRequestV0ConfigEntry{ConfigName: e.Name, ConfigValue: e.Value}
+				}
+			}
+			req.Topics[i] = rt
+		}
+	}
+	_, err := c.createTopics(req)
+	return err
+}
+
+// (*Conn).deleteTopics
+func VerifC04DeleteTopics(c *Conn, topics []string, timeout int32) error {
+	_, err := c.deleteTopics(deleteTopicsRequest{Topics: topics, Timeout: timeout})
+	return err
+}
+
+// (*Conn).saslHandshake
+func VerifC04SaslHandshake(c *Conn, mechanism string) error { return c.saslHandshake(mechanism) }
+
+// (*Conn).saslAuthenticate
+func VerifC04SaslAuthenticate(c *Conn, data []byte) error {
+	_, err := c.saslAuthenticate(data)
+	return err
+}
+
+// VerifC04WriteProduce calls writeBuffer.writeProduceRequestV2 / V3 / V7
+// directly (as Conn.writeCompressedMessages does after it replaced zero
+// message times by time.Now() and derived the timeout from the deadline), so
+// that zero times, an explicit timeout and any required-acks value reach the
+// writers.
+func VerifC04WriteProduce(w io.Writer, version int, codec CompressionCodec, correlationID int32, clientID, topic string, partition int32, timeout time.Duration, requiredAcks int16, transactionalID *string, msgs []Message) error {
+	wb := &writeBuffer{w: w}
+	switch version {
+	case 2:
+		return wb.writeProduceRequestV2(codec, correlationID, clientID, topic, partition, timeout, requiredAcks, msgs...)
+	case 3, 7:
+		rb, err := newRecordBatch(codec, msgs...)
+		if err != nil {
+			return err
+		}
+		if version == 3 {
+			return wb.writeProduceRequestV3(correlationID, clientID, topic, partition, timeout, requiredAcks, transactionalID, rb)
+		}
+		return wb.writeProduceRequestV7(correlationID, clientID, topic, partition, timeout, requiredAcks, transactionalID, rb)
+	}
+	panic("VerifC04WriteProduce: version")
+}
+
+// VerifC04WriteFetch calls writeBuffer.writeFetchRequestV2 / V5 / V10 directly.
+func VerifC04WriteFetch(w io.Writer, version int, correlationID int32, clientID, topic string, partition int32, offset int64, minBytes, maxBytes int, maxWait time.Duration, isolationLevel int8) error {
+	wb := &writeBuffer{w: w}
+	switch version {
+	case 2:
+		return wb.writeFetchRequestV2(correlationID, clientID, topic, partition, offset, minBytes, maxBytes, maxWait)
+	case 5:
+		return wb.writeFetchRequestV5(correlationID, clientID, topic, partition, offset, minBytes, maxBytes, maxWait, isolationLevel)
+	case 10:
+		return wb.writeFetchRequestV10(correlationID, clientID, topic, partition, offset, minBytes, maxBytes, maxWait, isolationLevel)
+	}
+	panic("VerifC04WriteFetch: version")
+}
+
+// VerifC04WriteListOffsets calls writeBuffer.writeListOffsetRequestV1 directly.
+func VerifC04WriteListOffsets(w io.Writer, correlationID int32, clientID, topic string, partition int32, time int64) error {
+	wb := &writeBuffer{w: w}
+	return wb.writeListOffsetRequestV1(correlationID, clientID, topic, partition, time)
+}
+
+// VerifC04FetchMinSize reads Conn.fetchMinSize (what ReadBatchWith adds to
+// ReadBatchConfig.MaxBytes).
+func VerifC04FetchMinSize(c *Conn) int32 { return c.fetchMinSize }
+
+// VerifC04Negotiate is apiVersionMap.negotiate on a table given as
+// (key, min, max) triples.
+func VerifC04Negotiate(table []ApiVersion, key int16, sortedSupported ...int16) int16 {
+	m := make(apiVersionMap, len(table))
+	for _, a := range table {
+		m[apiKey(a.ApiKey)] = a
+	}
+	s := make([]apiVersion, len(sortedSupported))
+	for i, v := range sortedSupported {
+		s[i] = apiVersion(v)
+	}
+	return int16(m.negotiate(apiKey(key), s...))
+}
